@@ -373,14 +373,28 @@ def run(prog, rep, tier):
                 oks = [b2 for b2 in r for s in sw.blocks[b2].stmts if s.kind == 'assign' and s.place == (0, ()) and s.rv.r == 'aggregate' and s.rv.j.get('variant') == 'Ok']
                 ok = brk is not None and not oks and any(sw.blocks[b2].term.kind == 'call' and sw.blocks[b2].term.cmethod == 'from_residual' for b2 in r)
         rep.ob('R09.4', ok, 'R09.4|%s|propagates-append-error' % sw.nkey, 'StreamWriter::write returns the error of append_file_content' if ok else 'StreamWriter::write can swallow a refusal of append_file_content', sw.loc())
-    af = one_body(prog, rep, 'R09.4', 'mlar', exact='add_file_or_dir')
-    if af is not None:
-        calls = [b for b in af.calls() if cnorm(b.term).endswith('ArchiveWriter::add_file') or cnorm(b.term).endswith('ArchiveWriter::start_file')]
-        ok = bool(calls)
-        for c in calls:
-            br = [b for b in af.calls() if b.term.cmethod == 'branch' and b.term.args[0].place and b.term.args[0].place[0] == c.term.dest[0]]
-            ok = ok and len(br) == 1
-        rep.ob('R09.4', ok, 'R09.4|%s|propagates-add-error' % af.nkey, 'add_file_or_dir propagates the error of add_file with ?' if ok else 'add_file_or_dir does not propagate the writer error', af.loc())
+    # every call of the CLI into the writer hands a refusal on: with the result known to be Err, no Ok(..) result of the calling function is reachable
+    WR = ('ArchiveWriter::add_file', 'ArchiveWriter::start_file', 'ArchiveWriter::append_file_content', 'ArchiveWriter::end_file', 'ArchiveWriter::finalize')
+    nsites = 0
+    cnt = collections.Counter()
+    for af in prog.crates['mlar'].bodies:
+        for c in af.calls():
+            cn = cnorm(c.term)
+            if not cn.endswith(WR) or c.term.dest is None or c.term.dest[1] or c.term.target is None:
+                continue
+            nsites += 1
+            rep.fn(af)
+            base = '%s|%s' % (af.nkey, cn.rsplit('::', 1)[-1])
+            key = 'R09.4|%s#%d|propagates-writer-error' % (base, cnt[base])
+            cnt[base] += 1
+            if c.term.dest == (0, ()):
+                rep.ob('R09.4', True, key, 'result of %s returned as is' % cn.rsplit('::', 1)[-1], af.loc(c.idx))
+                continue
+            r = reachable_vs(af, c.term.target, env0={c.term.dest[0]: 'Err'})
+            oks = [b2 for b2 in r for s2 in af.blocks[b2].stmts if s2.kind == 'assign' and s2.place == (0, ()) and s2.rv.r == 'aggregate' and s2.rv.j.get('variant') == 'Ok']
+            rep.ob('R09.4', not oks, key, 'a refusal of %s is propagated to the caller' % cn.rsplit('::', 1)[-1] if not oks else
+                   '%s can return Ok after %s returned an error: the refusal is swallowed by the command line tool' % (af.nkey, cn.rsplit('::', 1)[-1]), af.loc(c.idx))
+    rep.floor('R09.4', nsites, 2, 'calls of mlar into the ArchiveWriter')
 
 
 def guard_of(prog, body, bb):
